@@ -159,9 +159,19 @@ func zipExec(ctx *Ctx, w []string) {
 			os.MkdirAll(src, 0o755)
 			tree := zipParsePairs(w[4])
 			depth := 0
-			for _, t := range tree {
+			for ti, t := range tree {
 				p := filepath.Join(src, t[0])
 				os.MkdirAll(filepath.Dir(p), 0o755)
+				if strings.HasSuffix(t[0], ".lnk") {
+					// a SYMLINK to a regular file that lives outside the zipped tree (relative link text, shorter than most
+					// contents): for the archive it is a file of that name with the target's content
+					target := filepath.Join(box, fmt.Sprintf("lt%d", ti))
+					os.WriteFile(target, []byte(t[1]), 0o644)
+					rel, _ := filepath.Rel(filepath.Dir(p), target)
+					if os.Symlink(rel, p) == nil {
+						continue
+					}
+				}
 				os.WriteFile(p, []byte(t[1]), 0o644)
 				if n := strings.Count(t[0], "/") + 1; n > depth {
 					depth = n
@@ -318,7 +328,7 @@ func runZip(ctx *Ctx) {
 	if ctx.Thorough {
 		nt = 600
 	}
-	names := []string{"f1", "f2.txt", "x.skip", "sp ace", "dot.d", "ü", "bin", ".env", ".f1", "src", "..f", "f1.", "-x", "a.zip", "hostile.zip", "back\\slash", "r\\2023.txt"}
+	names := []string{"f1", "f2.txt", "x.skip", "sp ace", "dot.d", "ü", "bin", ".env", ".f1", "src", "..f", "f1.", "-x", "a.zip", "hostile.zip", "back\\slash", "r\\2023.txt", "cur.lnk", "log.lnk"}
 	for i := 0; i < nt; i++ {
 		var tree []string
 		used := map[string]bool{}
